@@ -161,7 +161,8 @@ func forgedMultiOffenders(rng *rand.Rand) []*Target {
 	}
 	// ---- the generic duplicate-and-vary recipes
 	stride := 6
-	if tier == "thorough" {
+	full := os.Getenv("VERIF_MULTI_FULL") == "1" // every template, every attribute (C02: each input is linted once)
+	if tier == "thorough" || full {
 		stride = 1
 	}
 	for ci, o := range c.Certs {
@@ -248,6 +249,27 @@ func forgedMultiOffenders(rng *rand.Rand) []*Target {
 			case "rdn-vary":
 				subj := base.Subject()
 				if len(subj.Children) == 0 {
+					continue
+				}
+				if full && rc.N == 2 {
+					// one certificate per attribute: that attribute repeated with a varied and with a truncated value
+					for ai := range subj.Children {
+						cc := base.Clone()
+						s2 := cc.Subject()
+						for k := 1; k <= 2; k++ {
+							src := subj.Children[ai].Clone()
+							if len(src.Children) > 0 && len(src.Children[0].Children) == 2 && !src.Children[0].Children[1].Constructed() {
+								v := src.Children[0].Children[1]
+								val := varyN(string(v.Body()), k)
+								if k == 2 && len(val) > 3 {
+									val = val[3:]
+								}
+								src.Children[0].Children[1] = forge.Prim(v.Tag(), []byte(val))
+							}
+							s2.Children = append(s2.Children, src)
+						}
+						add(fmt.Sprintf("forged:rdn-vary-attr%d:%s", ai, o.ID), cc.Bytes())
+					}
 					continue
 				}
 				cc := base.Clone()
